@@ -281,6 +281,7 @@ theorem viewSim_spec {h : Heap} {s : Sim} {h' : Heap} {v : View} (hv : viewSim h
   | ok c =>
     rw [hr] at hv
     simp only at hv
+    unfold viewKeep at hv
     cases hs : viewSegs s.nan c s.segs with
     | error e => rw [hs] at hv; cases hv
     | ok r =>
@@ -288,7 +289,7 @@ theorem viewSim_spec {h : Heap} {s : Sim} {h' : Heap} {v : View} (hv : viewSim h
       rw [hs] at hv
       simp only at hv
       cases hv
-      refine ⟨c, c', (read_ok_lt hr).2, ?_, rfl⟩
+      refine ⟨c, { c' with pars := c.pars }, (read_ok_lt hr).2, ?_, rfl⟩
       simp [viewPure, hs]
 
 /-- what a recorded view must be: the pure view of what the result's cell held BEFORE any reading -/
@@ -684,32 +685,62 @@ theorem tcRun_index (cfg : EulerCfg) (tps : List Rat) (c c' : Content) (segs : L
               rw [simInit_t0 cfg c ig hi] at this
               simp [tcIndex, this]
 
+theorem exc_bind_ok {ε α β} {x : Except ε α} {f : α → Except ε β} {b : β} (h : (x >>= f) = .ok b) :
+    ∃ a, x = .ok a ∧ f a = .ok b := by
+  cases x with
+  | error e => cases h
+  | ok a => exact ⟨a, rfl, h⟩
+
+/-- the end of a steady-state run: the model is left alone; a success is ONE row with the model's
+    own parameter snapshot, anything else is the failure that becomes the NaN placeholder -/
+theorem ssFinish_spec (cfg : EulerCfg) (c c' : Content) (prev last : Rat × List Rat) (r : Option (List Seg))
+    (h : ssFinish cfg c prev last = .ok (c', r)) :
+    c' = c ∧ ∀ segs, r = some segs → ∃ p, snapshot c = .ok p ∧ segs = [{ rows := [last], pars := p }] := by
+  unfold ssFinish at h
+  split at h
+  · cases hs : snapshot c with
+    | error e => rw [hs] at h; cases h
+    | ok p =>
+      rw [hs] at h
+      simp only [Except.ok.injEq, Prod.mk.injEq] at h
+      obtain ⟨h1, h2⟩ := h
+      refine ⟨h1.symm, ?_⟩
+      intro segs hsegs
+      rw [← h2] at hsegs
+      cases hsegs
+      exact ⟨p, rfl, rfl⟩
+  · simp only [Except.ok.injEq, Prod.mk.injEq] at h
+    refine ⟨h.1.symm, ?_⟩
+    intro segs hsegs
+    rw [← h.2] at hsegs
+    cases hsegs
+
+theorem ssRun_spec (cfg : EulerCfg) (c c' : Content) (r : Option (List Seg))
+    (h : ssRun cfg c = .ok (c', r)) :
+    c' = c ∧ ∀ segs, r = some segs → ∃ p last, snapshot c = .ok p ∧ segs = [{ rows := [last], pars := p }] := by
+  unfold ssRun at h
+  obtain ⟨ig, _, h⟩ := exc_bind_ok h
+  by_cases hf : ig.fail = true
+  · simp only [hf, if_true, pure, Except.pure, Except.ok.injEq, Prod.mk.injEq] at h
+    refine ⟨h.1.symm, ?_⟩
+    intro segs hs
+    rw [← h.2] at hs
+    cases hs
+  · simp only [hf, Bool.false_eq_true, if_false] at h
+    obtain ⟨prev, _, h⟩ := exc_bind_ok h
+    obtain ⟨last, _, h⟩ := exc_bind_ok h
+    obtain ⟨h1, h2⟩ := ssFinish_spec cfg c c' prev last r h
+    refine ⟨h1, ?_⟩
+    intro segs hs
+    obtain ⟨p, hp, hseg⟩ := h2 segs hs
+    exact ⟨p, last, hp, hseg⟩
+
 theorem ssRun_shape (cfg : EulerCfg) (c c' : Content) (segs : List Seg)
     (h : ssRun cfg c = .ok (c', some segs)) :
     (segs.flatMap (·.rows)).length = 1 ∧ c' = c := by
-  unfold ssRun at h
-  simp only [bind, Except.bind] at h
-  cases hi : simInit cfg c with
-  | error e => rw [hi] at h; cases h
-  | ok ig =>
-    rw [hi] at h
-    simp only at h
-    by_cases hf : ig.fail
-    · simp [hf, pure, Except.pure] at h
-    · simp only [hf, Bool.false_eq_true, if_false] at h
-      cases he : eulerSteps c cfg.h cfg.nss 0 ig.y0orig with
-      | error e => rw [he] at h; cases h
-      | ok ty =>
-        obtain ⟨t, y⟩ := ty
-        rw [he] at h
-        simp only at h
-        cases hs : snapshot c with
-        | error e => rw [hs] at h; cases h
-        | ok p =>
-          rw [hs] at h
-          simp only [pure, Except.pure] at h
-          cases h
-          simp
-
+  obtain ⟨h1, h2⟩ := ssRun_spec cfg c c' (some segs) h
+  obtain ⟨p, last, _, hseg⟩ := h2 segs rfl
+  subst hseg
+  exact ⟨by simp, h1⟩
 
 end Mxl.C09
